@@ -37,8 +37,17 @@ func ruleT2(c *Ctx, id string) {
 		if !IsRepoFunc(cs.Caller) {
 			continue
 		}
-		why, ok := earlyRelease[FuncName(cs.Caller)]
-		R.Check(ok, id, FuncName(cs.Caller)+"|calls ReleaseInode", P.Pos(cs.Instr.Pos()), "ReleaseInode is called only from the epilogue and the frozen early-release sites", why, "a new early release breaks two-phase locking: another transaction can modify the object before this one commits")
+		who := FuncName(cs.Caller)
+		why, ok := earlyRelease[who]
+		if !ok {
+			// a block of statements extracted from one of the sites
+			if o := ownerOf(cs.Caller); o != cs.Caller {
+				if w2, ok2 := earlyRelease[FuncName(o)]; ok2 {
+					who, why, ok = FuncName(o), w2, true
+				}
+			}
+		}
+		R.Check(ok, id, who+"|calls ReleaseInode", P.Pos(cs.Instr.Pos()), "ReleaseInode is called only from the epilogue and the frozen early-release sites", why, "a new early release breaks two-phase locking: another transaction can modify the object before this one commits")
 	}
 	for _, pr := range []struct {
 		f     *ssa.Function
